@@ -13,6 +13,7 @@ import (
 	"github.com/cedar-policy/cedar-go/verif/c05"
 	"github.com/cedar-policy/cedar-go/verif/c06"
 	"github.com/cedar-policy/cedar-go/verif/c07"
+	"github.com/cedar-policy/cedar-go/verif/c08"
 	"github.com/cedar-policy/cedar-go/verif/c20"
 	"github.com/cedar-policy/cedar-go/verif/core"
 )
@@ -25,6 +26,7 @@ var registry = map[string]func() *core.Check{
 	"C05": c05.Check,
 	"C06": c06.Check,
 	"C07": c07.Check,
+	"C08": c08.Check,
 	"C20": c20.Check,
 }
 
